@@ -570,6 +570,52 @@ func runVariance() {
 					}
 				}
 			}
+			// counters beyond 2^53 that are NOT exactly representable in float64 (k = 2^53 + odd): the
+			// statement's clauses within float accuracy - an exact multiple scores (nearly) zero, never
+			// +Inf, and scaling a vector by k leaves a non-borderline score unchanged. Bases: the pattern
+			// itself, doubled, and with one run one module wider / narrower.
+			if n <= 8 {
+				var bases [][]int
+				bases = append(bases, append([]int{}, p...))
+				for x := range p {
+					up := append([]int{}, p...)
+					up[x]++
+					bases = append(bases, up)
+					if p[x] > 1 {
+						dn := append([]int{}, p...)
+						dn[x]--
+						bases = append(bases, dn)
+					}
+				}
+				for _, k := range []int{1<<53 + 1, 1<<53 + 3, 1<<54 + 5, 3<<52 + 7} {
+					for bi, c := range bases {
+						ck := make([]int, n)
+						for x := range c {
+							ck[x] = c[x] * k
+						}
+						for _, lim := range []float64{0.5, 0.7} {
+							want, inf, border := model(c, p, lim)
+							tc, tp := 0, 0
+							for x := range c {
+								tc += c[x]
+								tp += p[x]
+							}
+							if border || tc < tp { // below one pixel per module the unscaled vector is +Inf by rule
+								continue
+							}
+							g := oned.PatternMatchVariance(ck, p, lim)
+							l.Count("evaluations", 1)
+							l.Count("beyond_2^53_calls", 1)
+							switch {
+							case bi == 0 && (math.IsInf(g, 0) || math.IsNaN(g) || math.Abs(g) > 1e-9):
+								chk.Violation("C20/PatternMatchVariance/exact-multiple/beyond-2^53", fmt.Sprintf("score(%d*p)=%v for p=%v (limit %v)", k, g, p, lim), varCase{ck, p, lim, false})
+							case inf != math.IsInf(g, 1) || (!inf && math.Abs(g-want) > 1e-9):
+								chk.Violation("C20/PatternMatchVariance/scale/beyond-2^53", fmt.Sprintf("score(c)=%v (infinite=%v) but score(%d*c)=%v for c=%v p=%v (limit %v)", want, inf, k, g, c, p, lim), varCase{ck, p, lim, false})
+							}
+						}
+					}
+				}
+			}
 			// an allowance that is not a number: no deviation is "more than" NaN, and the zero score of
 			// an exact multiple is stated without condition - only that clause is demanded here
 			for k := 1; k <= 8; k++ {
